@@ -129,7 +129,7 @@ def schedLine (toks : List String) : Option String := do
   let script ← kv toks "script"
   let reqs ← (script.splitOn ";").mapM parseReq
   let cfg : Cfg := { yieldFreq := freq, sleepTime := sleep, failFreq := afail, tick := tick, pick := pick }
-  let s0 : St (List Nat) Nat Nat := { (init streamEngine 0 0 st) with eng := parseRaws raws }
+  let s0 : St (List Nat) Nat Nat := { (init streamEngine 0 st) with eng := parseRaws raws }
   let r := reqs.foldl (fun (so : St (List Nat) Nat Nat × List (List (Out Nat))) r =>
     match step streamEngine cfg so.1 r with
     | (s', o) => (s', o :: so.2)) (s0, [])
